@@ -20,11 +20,12 @@
    of that type; [supported] — [vok] without the Edge restriction.
 
    History: the earlier version of this file refuted the property on eight defect classes.
-   Three are repaired in /repo and are theorems now, their witnesses pinned below and in the
-   harness: bool slices longer than 8 (734b6c6), records omitting a declared field (8413af6),
-   arrays panicking under recursion support (7f07b92).  Five remain open: types.Edge without
-   its end event and signalling float32 NaNs (without recursion support); marker on marker,
-   marked container inside a marked container, slices sharing their start address (with it).
+   Four are repaired in /repo, their witnesses pinned below and in the harness: bool slices
+   longer than 8 (734b6c6), records omitting a declared field (8413af6), arrays panicking under
+   recursion support (7f07b92), and the validator rejecting a marked container inside a marked
+   container (192c5da).  Four remain open: types.Edge without its end event and signalling
+   float32 NaNs (without recursion support); marker on marker and slices sharing their start
+   address (with it).
    [C05_full] is the whole property, each [_refuted] theorem derives its negation from one
    concrete witness of one open class, and [C05_partial] is the property for the fragment that
    excludes exactly those classes (recursion support off, [vok], [descr]). *)
@@ -130,18 +131,6 @@ Theorem C05_marker_on_marker_refuted : ~ C05_full.
 Proof. exact full_refuted_marker_on_marker. Qed.
 Print Assumptions C05_marker_on_marker_refuted.
 
-(* defect (recursion support): a marked container inside a marked container is rejected by the
-   validator although the stream describes the value *)
-Theorem C05_nested_markers_refuted : ~ C05_full.
-Proof. exact full_refuted_nested_markers. Qed.
-Print Assumptions C05_nested_markers_refuted.
-Theorem C05_nested_markers_witness :
-  supported default_rcfg cfg_rec 0 w_nested = true
-  /\ accepts_document default_rcfg (iterate cfg_rec (Some w_nested)) = false
-  /\ described_rec (iterate cfg_rec (Some w_nested)) = Some (canon cfg_rec w_nested).
-Proof. exact nested_markers_rejected. Qed.
-Print Assumptions C05_nested_markers_witness.
-
 (* defect (recursion support): slices with the same start address and different lengths are merged *)
 Theorem C05_same_base_slices_refuted : ~ C05_full.
 Proof. exact full_refuted_same_base_slices. Qed.
@@ -185,9 +174,24 @@ Theorem C05_array_recursion_pinned :
 Proof. exact array_completes. Qed.
 Print Assumptions C05_array_recursion_pinned.
 
+(* a marked container inside a marked container, and a two-element cycle, under recursion support
+   (the validator used to keep a single marker id and rejected them; /repo 192c5da) *)
+Theorem C05_nested_markers_pinned :
+  iterate cfg_rec (Some w_nested)
+  = [EBeginDoc; EVersion 0; EList; EMarker [48]; EMap; EStringArray AT_String [110]; EMarker [49]; EMap;
+     EStringArray AT_String [110]; ENull; EEnd; EEnd; ERefLocal [48]; ERefLocal [49]; EEnd; EEndDoc]
+  /\ accepts_document default_rcfg (iterate cfg_rec (Some w_nested)) = true
+  /\ described_rec (iterate cfg_rec (Some w_nested)) = Some (canon cfg_rec w_nested)
+  /\ iterate cfg_rec (Some w_cycle)
+     = [EBeginDoc; EVersion 0; EMarker [48]; EMap; EStringArray AT_String [110]; EMap; EStringArray AT_String [110];
+        ERefLocal [48]; EEnd; EEnd; EEndDoc]
+  /\ accepts_document default_rcfg (iterate cfg_rec (Some w_cycle)) = true.
+Proof. exact nested_markers_accepted. Qed.
+Print Assumptions C05_nested_markers_pinned.
+
 (* ---- the property on the fragment without the open classes ------------------------------- *)
 
-(* Excluded: recursion support (three open defect classes above; its general statement is not
+(* Excluded: recursion support (two open defect classes above; its general statement is not
    proved beyond completion), types.Edge, signalling float32 NaNs; map keys are restricted to
    one-event keyable values (see [vok]).  Bool slices of every length and records with empty
    fields are inside the fragment. *)
